@@ -145,7 +145,8 @@ def contender(F, path, logp, cid, stop_r):
             rl, _, _ = select.select([stop_r], [], [], 0)
             if rl:
                 break
-            if lock.acquire(timeout=1.0, poll_interval=0.002):
+            got = lock.acquire() if cid % 2 == 0 else lock.acquire(timeout=1.0, poll_interval=0.002)
+            if got:
                 h += 1
                 os.write(log, ('E %d %d\n' % (cid, h)).encode())
                 os.write(log, ('X %d %d\n' % (cid, h)).encode())
@@ -276,7 +277,7 @@ def run(ctx):
         for n in range(1, lines + 1):
             conts = [0] if ctx.tier == 'quick' else [0, 1, 2]
             if ctx.tier == 'quick' and n % 4 == 0:
-                conts = [0, 1]
+                conts = [0, 2]
             for nc in conts:
                 cases.append((kind, reentrant, n, nc, False))
             if kind in ('blocking', 'nested') and (ctx.tier == 'thorough' or n % 3 == 0):
